@@ -22,6 +22,7 @@ echo "exit=$RM" >> $LOG
 echo "== demo on the clean tree (expect 0)" >> $LOG
 rm -rf /tmp/mut/clean_$SID && git -C /repo worktree add -q --detach /tmp/mut/clean_$SID HEAD && cd /tmp/mut/clean_$SID && cmake -G Ninja -S . -B _build -DCMAKE_BUILD_TYPE=Debug $OPTS >/dev/null 2>&1 && cmake --build _build >/dev/null 2>&1
 # demos locate the tree either through $ROOT / $SRC_ROOT or relative to their own directory: run a copy placed inside the clean tree
+find $W/demo -maxdepth 1 -type d -name "_*" -exec rm -rf {} + 2>/dev/null
 cp -r $W/demo /tmp/mut/clean_$SID/demo
 ( cd /tmp/mut/clean_$SID/demo && ROOT=/tmp/mut/clean_$SID SRC_ROOT=/tmp/mut/clean_$SID BUILD=/tmp/mut/clean_$SID/_build timeout 900 bash run.sh ) >> $LOG 2>&1; RC=$?
 echo "exit=$RC" >> $LOG
